@@ -148,6 +148,7 @@ pub struct Exec<A: Ar> {
     /// durable image of a file-backed arena at the last writable close
     pub durable: Option<Durable>,
     pub remove_on_drop: bool,
+    pub late_remove: bool,
     /// when set, only violations of these properties are recorded (others are ignored)
     pub only_props: Option<Vec<&'static str>>,
 }
@@ -219,6 +220,7 @@ impl<A: Ar> Exec<A> {
             expect_refs_extra: (0, 0),
             durable: None,
             remove_on_drop: false,
+            late_remove: false,
             only_props: None,
         };
         e.ro = e.a().read_only();
@@ -387,6 +389,12 @@ impl<A: Ar> Exec<A> {
                     (_, Op::Drop { .. }) | (_, Op::DetachDrop { .. }) | (_, Op::Dealloc { .. }) | (_, Op::CloneArena { .. }) | (_, Op::DropArena { .. }) => "C13",
                     _ => "CRASH",
                 };
+                if class == "wild_write" && detail.starts_with("Meta::clear") && matches!(op, Op::Alloc { .. } | Op::Fill) {
+                    // Meta::clear zeroes exactly the extent that the call is about to hand out: an extent outside
+                    // the arena buffer is also, literally, a C01 matter ("in bounds") — the call is stopped before
+                    // it returns, so the live-range oracle never gets to see the handle
+                    self.v("C01", "out_of_bounds", format!("{} during {:?}: the extent being handed out is not inside the arena", detail, op));
+                }
                 self.v(prop, class, format!("{} during {:?}", detail, op));
                 self.dead = true;
                 return Obs { result: format!("crash:{}", class), ..Default::default() };
@@ -836,6 +844,22 @@ impl<A: Ar> Exec<A> {
                 if post.allocated as usize != target {
                     self.v("C17", "rewind_position", format!("rewind({:?}) with allocated={} cap={} data_offset={}: cursor is {}, reference clamp gives {}", pos, cur, cap, d0, post.allocated, target));
                 }
+                if (post.allocated as i128) < d0 && (post.allocated as usize) != target && self.opts.check_reserved && !self.ro {
+                    // The history ends here for C17 (the cursor is not where the reference clamp puts it). C16 says
+                    // that no arena operation writes the reserved prefix: one more operation of the same history —
+                    // an allocation of the bytes between the cursor and data_offset — shows whether this cursor
+                    // position hands the prefix out.
+                    let n = (d0 - post.allocated as i128) as u32;
+                    let id = self.next_id;
+                    self.next_id += 1;
+                    if let Ok(mut h) = do_alloc(a, AllocKind::Bytes, 0, n, false, id) {
+                        let (off, hcap, _, _) = h.meta();
+                        if a.reserved_slice() != &self.reserved_pat[..] {
+                            self.v("C16", "reserved_written", format!("after rewind({:?}) left the cursor at {} in front of data_offset {}, alloc_bytes({}) returned [{},{}) and the reserved prefix changed", pos, post.allocated, d0, n, off, off + hcap));
+                        }
+                        h.detach_();
+                    }
+                }
                 if post.discarded != pre.discarded || post.min_seg != pre.min_seg || post.nodes != pre.nodes || post.sentinel != pre.sentinel || a.reserved_slice() != &reserved_before[..] {
                     self.v("C17", "rewind_side_effect", format!("rewind({:?}) changed more than the cursor", pos));
                 }
@@ -1009,6 +1033,11 @@ impl<A: Ar> Exec<A> {
                     }
                     // in bounds of the mapping before we touch it
                     if off + hcap > cap || boff + bcap > cap + 8 {
+                        // a live handle beyond the arena is also, literally, a C01 matter ("in bounds"); the history
+                        // ends here, so the live-range oracle would never get to see it
+                        if off + hcap > cap && hcap > 0 {
+                            self.v("C01", "out_of_bounds", format!("handle [{},{}) returned by an allocation lies beyond capacity {}", off, off + hcap, cap));
+                        }
                         self.v("C04", "out_of_capacity", format!("handle [{},{}) / buffer [{},{}) beyond capacity {}", off, off + hcap, boff, boff + bcap, cap));
                         std::mem::forget(h);
                         self.dead = true;
@@ -1535,6 +1564,11 @@ impl<A: Ar> Exec<A> {
                 std::mem::forget(a);
             }
             return;
+        }
+        if self.late_remove && !self.remove_on_drop && self.path.is_some() {
+            // C13: "a file marked remove-on-drop disappears exactly then" — whatever kind of session marks it
+            self.a().remove_on_drop(true);
+            self.remove_on_drop = true;
         }
         let t0 = ST.with(|st| st.borrow().teardowns);
         let path = self.path.clone();
